@@ -296,6 +296,19 @@ def corpus():
         da = copy.deepcopy(dd)
         da["modules"][1]["insts"][0]["array"] = 2
         extra_after.append({"class": "bad_member", "site": f"corpus:extra-member-{where}-nested-anonymous-bundle-on-array", "design": da})
+    # an anonymous bundle whose member is a *reference* to a sub-bundle of another type, which has one member more than the port's
+    s1 = {"sigs": [lf("x", 1)], "subs": []}
+    s2 = {"sigs": [lf("x", 1), lf("extra", 1)], "subs": []}
+    bpt = {"name": "BpT", "tree": {"sigs": [lf("y", 1)], "subs": [{"n": "sub", "flip": False, "role": None, "of": s1}]}}
+    b2t = {"name": "B2T", "tree": {"sigs": [lf("y", 1)], "subs": [{"n": "sub", "flip": False, "role": None, "of": s2}]}}
+    hasbpt = {"name": "HasBpT", "sigs": [], "bundles": [{"n": "bp", "of": "BpT", "port": True}],
+              "insts": [{"n": "r1", "of": copy.deepcopy(r), "conns": [["p", {"k": "bref", "root": "bp", "path": ["sub", "x"]}], ["n", {"k": "bref", "root": "bp", "path": ["y"]}]]}]}
+    for arr in (False, True):
+        inst = {"n": "i", "of": {"k": "module", "name": "HasBpT"}, "conns": [["bp", {"k": "anon", "fields": [["sub", {"k": "bref", "root": "b2", "path": ["sub"]}], ["y", {"k": "bref", "root": "b2", "path": ["y"]}]]}]]}
+        if arr:
+            inst["array"] = 2
+        dr = {"bundles": [bpt, b2t], "top": "Top", "modules": [copy.deepcopy(hasbpt), {"name": "Top", "sigs": [], "bundles": [{"n": "b2", "of": "B2T", "port": False}], "insts": [inst]}]}
+        extra_after.append({"class": "bad_member", "site": "corpus:reference-to-wider-sub-bundle-in-anonymous-bundle" + ("-on-array" if arr else ""), "design": dr})
     # an instance array whose bundle port is given a bundle instance of another type, which has the port's members and one more
     hasd = {"name": "HasD", "sigs": [], "bundles": [{"n": "bp", "of": "Diff", "port": True}],
             "insts": [{"n": "r1", "of": copy.deepcopy(r), "conns": [["p", {"k": "bref", "root": "bp", "path": ["p"]}], ["n", {"k": "bref", "root": "bp", "path": ["n"]}]]}]}
